@@ -139,10 +139,13 @@ def tamper(line, how):
             return None
         return line[:m.start(1)] + ("0" if m.group(1) == "1" else "1") + line[m.end(1):]
     if how == "tuple-name":
-        m = re.search(r"\(prog ts .*?\(tuples \(tup - \(\)\) \(tup \"Ok\" \(\)\) \(tup \"([A-Za-z]+)\"", line)
-        if not m:
+        # a named tuple of `ts` that an instruction of `ts` builds (so it is certainly mapped)
+        k = rest.find("(prog mg ")
+        sect = rest[:k] if k >= 0 else rest
+        m = re.search(r"\(tuples \(tup - \(\)\) \(tup \"Ok\" \(\)\) \(tup \"([A-Za-z]+)\"", sect)
+        if not m or "(tuple 2)" not in sect:
             return None
-        return line[:m.start(1)] + "Zz" + line[m.end(1):]
+        return head + rest[:m.start(1)] + "Zz" + rest[m.end(1):]
     return None
 
 
